@@ -266,6 +266,26 @@ fn corpus() -> Vec<Vec<i64>> {
             item(Some(120.0), Some(10.0), None, Some(80.0), 2.5, 2.5, Some(0.0), Some(0.0), [2.0, 0.0, 0.0, 1.0], 5.0),
         ]));
     }
+    // staircase lines: one freeze pass PER ITEM (10 and 12 items; grow factors 3^(n-1-i), each max a tenth below the item's share of
+    // what is left when its turn comes, the last item unbounded).  The model's loop has one round per item, so an implementation that
+    // stops distributing early disagrees bit for bit here.
+    for (dir, n, w) in [(0i64, 10usize, 10000.0f64), (1, 12, 5000.0), (2, 12, 30000.0)] {
+        let grow: Vec<f64> = (0..n).map(|i| 3f64.powi((n - 1 - i) as i32)).collect();
+        let mut free = w;
+        let mut items = vec![];
+        for j in 0..n {
+            let mx = if j + 1 < n {
+                let g: f64 = grow[j..].iter().sum();
+                let m = ((free * grow[j] / g * 0.9) * 4.0).round() / 4.0;
+                free -= m;
+                Some(m as f32)
+            } else {
+                None
+            };
+            items.push(item(Some(0.0), None, None, mx, grow[j] as f32, 1.0, Some(0.0), Some(0.0), [0.0; 4], 0.0));
+        }
+        v.push(cont(dir, 2, w as f32, 0.0, items));
+    }
     v
 }
 
